@@ -5,6 +5,7 @@ import (
 	"go/ast"
 	"go/token"
 	"go/types"
+	"sort"
 	"strings"
 
 	"rscheck/core"
@@ -270,13 +271,22 @@ func (s *sinkState) seqTokens(x ast.Expr) []string {
 				hi, ok = core.IntConst(s.info, v.High)
 			}
 			if ok {
-				for _, sp := range s.arrays[o] {
-					if sp.lo == lo && sp.hi == hi {
-						return []string{sp.tok}
+				// the values stored by PutUintN that tile [lo, hi) exactly, in order
+				spans := append([]span{}, s.arrays[o]...)
+				sort.Slice(spans, func(i, j int) bool { return spans[i].lo < spans[j].lo })
+				var toks []string
+				at := lo
+				for _, sp := range spans {
+					if sp.lo == at && sp.hi <= hi {
+						toks = append(toks, sp.tok)
+						at = sp.hi
 					}
 				}
+				if at == hi && len(toks) > 0 {
+					return toks
+				}
 			}
-			s.und("`%s` does not coincide with one value stored by PutUintN", s.c.Src(v))
+			s.und("`%s` is not tiled exactly by values stored with PutUintN", s.c.Src(v))
 			return nil
 		}
 		if s.vParam[o] && v.Low == nil && v.High == nil {
